@@ -37,7 +37,8 @@ REQUIRED_MONITORS = ["only_documented_tokens_change", "float_size_line", "builds
                      "spelling_selects_type", "every_part_has_requested_dtype"]
 REQUIRED_BUCKETS = {"quick": ["a:float32", "a:float64", "a:longdouble", "b:fragment", "c:float32", "c:longdouble",
                               "d:spelling", "c:dispersity-with-cutoff", "c:magnetic-2d", "switch:single-precision-libraries-not-allowed", "system-build:float32", "system-build:float64", "system-build:longdouble", "frag:adjacent-double", "frag:string", "frag:hexfloat", "frag:suffixed",
-                              "frag:int-promotion", "frag:exponent-identifier", "frag:multiline-comment"]}
+                              "frag:int-promotion", "frag:exponent-identifier", "frag:multiline-comment",
+                              "c:q-exactly-zero", "c:q-exactly-on-particle-axes", "composite:with-python-component"]}
 REQUIRED_BUCKETS["thorough"] = REQUIRED_BUCKETS["quick"]
 
 FUNCS = set("sin cos tan asin acos atan sinh cosh tanh asinh acosh atanh atan2 erf erfc tgamma exp exp2 exp10 expm1 "
@@ -344,6 +345,33 @@ def run_build(case, rec):
               None if ok else {"model": name, "dtype": d, "q": q, "double": I64, "other": Ix,
                                "max_rel_err": core.maxrel(Ix, I64, 1e-10*scale)},
               key="C15/float32-disagrees/%s" % name if d == "float32" else None)
+    # q exactly zero, and for oriented shapes q exactly perpendicular / parallel to the particle axis (arguments of
+    # the special functions exactly zero): where the double kernel is defined, the other precision is too
+    tol_r, tol_a = (2e-3, 1e-5) if d == "float32" else (1e-4, 1e-6)
+    z64 = np.asarray(direct_model.call_kernel(m64.make_kernel([np.array([0.0])]), dict(pars)), float)
+    zx = np.asarray(direct_model.call_kernel(mx.make_kernel([np.array([0.0])]), dict(pars)), float)
+    if np.all(np.isfinite(z64)):
+        okz = bool(np.all(np.isfinite(zx))) and core.close(zx, z64, tol_r, tol_a*float(np.max(np.abs(z64))) + 1e-6)
+        rec.check("builds_and_agrees_with_double", okz,
+                  None if okz else {"model": name, "dtype": d, "case": "q = 0", "double": z64, "other": zx},
+                  key="C15/float32-disagrees/%s" % name if d == "float32" else None)
+        rec.bucket("c:q-exactly-zero")
+    if i.parameters.orientation_parameters:
+        op = dict(pars)
+        for a_ in i.parameters.orientation_parameters:
+            op[a_.name] = {"theta": 90.0, "phi": 0.0}.get(a_.name, 0.0)
+        qq_ = float(q[2])
+        qa_ = [np.array([0.0, qq_, 0.0, -qq_]), np.array([qq_, 0.0, -qq_, 0.0])]
+        o64 = np.asarray(direct_model.call_kernel(m64.make_kernel(qa_), dict(op)), float)
+        ox = np.asarray(direct_model.call_kernel(mx.make_kernel(qa_), dict(op)), float)
+        fin_ = np.isfinite(o64)
+        if np.any(fin_):
+            oko = bool(np.all(np.isfinite(ox[fin_]))) and core.close(ox[fin_], o64[fin_], tol_r, tol_a*float(np.max(np.abs(o64[fin_]))) + 1e-6)
+            rec.check("builds_and_agrees_with_double", oko,
+                      None if oko else {"model": name, "dtype": d, "case": "2-D q exactly along / across the particle axis",
+                                        "qx": qa_[0], "qy": qa_[1], "double": o64, "other": ox},
+                      key="C15/float32-disagrees/%s" % name if d == "float32" else None)
+            rec.bucket("c:q-exactly-on-particle-axes")
     # the same with a size distribution and a non-zero weight cutoff (the cutoff is a real-valued argument of the
     # compiled kernel too); cutoffs are placed between two weight levels so that no point sits on the threshold
     cand = [p_ for p_ in sas.usable_pd(i, pars, "1d") if p_.type == "volume"]
@@ -450,7 +478,9 @@ def run_spell(case, rec):
 
 
 COMPOSITES = ["sphere@hardsphere", "cylinder@squarewell", "sphere+cylinder", "sphere*line", "ellipsoid@squarewell+sphere",
-              "core_shell_sphere@stickyhardsphere"]
+              "core_shell_sphere@stickyhardsphere",
+              # a pure-python component (always double) before / after a compiled one
+              "power_law+sphere", "sphere+power_law", "broad_peak*cylinder", "power_law+cylinder@hardsphere"]
 
 
 def _leaves(model):
@@ -475,18 +505,23 @@ def run_composite(case, rec):
             if hasattr(leaf, "dllpath"):
                 got.append((leaf.info.id, np.dtype(leaf.dtype).itemsize, os.path.basename(leaf.dllpath)))
         pre = {4: "sas32_", 8: "sas64_", 16: "sas128_"}[size]
-        ok = bool(got) and all(sz == size and dll.startswith(pre) for _, sz, dll in got) and np.dtype(model.dtype).itemsize == size
+        # (pure-python parts are always double; a composite reports the type of its first part)
+        first_compiled = hasattr(_leaves(model)[0], "dllpath")
+        ok = bool(got) and all(sz == size and dll.startswith(pre) for _, sz, dll in got) \
+            and (np.dtype(model.dtype).itemsize == size or not first_compiled)
         rec.check("every_part_has_requested_dtype", ok,
                   None if ok else {"expression": expr, "spelling": spelling, "expected_itemsize": size,
                                    "composite_dtype": str(model.dtype), "parts": got})
-        if size == 4:
-            # the single-precision composite agrees with double to single precision and is not the double result
+        if size in (4, 16):
+            # the composite in the requested precision agrees with double to single precision
             q = [np.array([0.011, 0.043, 0.17])]
             I4 = np.asarray(direct_model.call_kernel(model.make_kernel(q), {}), float)
             m8 = sascore.load_model(expr, dtype="double!", platform="dll")
             I8 = np.asarray(direct_model.call_kernel(m8.make_kernel(q), {}), float)
             rec.check("builds_and_agrees_with_double", core.close(I4, I8, 2e-3, 1e-6*float(np.max(np.abs(I8)))),
-                      {"expression": expr, "single": I4, "double": I8})
+                      {"expression": expr, "spelling": spelling, "requested_precision": I4, "double": I8})
+            if any(not hasattr(leaf, "dllpath") for leaf in _leaves(model)):
+                rec.bucket("composite:with-python-component")
         rec.bucket("composite:" + spelling)
     rec.set_shape(("composite", expr), True)
 
